@@ -322,33 +322,45 @@ def thin_target(case):
     return min(case["tgt"]["shape"]) == 1
 
 
+def input_class(case, cols):
+    if wraps_source_crs(case, cols):
+        return "target_wraps_source_crs_antimeridian"
+    g = geos_outline_lossy(case)
+    if g:
+        return g
+    geos = case["src"]["kind"] == "geos"
+    return ("geos_" if geos else "") + ("one_pixel_thick_target" if thin_target(case) else "general")
+
+
 def judge_cover(case, out, res, api):
-    """The property oracle on one observation. Returns (key, what) or None."""
+    """The property oracle on one observation. Returns (key, what) or None.
+    cover clause (slices returned): every target pixel centre inside the source EXTENT keeps its containing pixel.
+    non-overlap clause: may be reported only if no target pixel centre lies on the source grid; the library's own
+    convention for "on the grid" is the hull of the source pixel CENTRES (polygon of the area to crop, the
+    'all outside' test against 0 and size, the hull test of the gradient search) and is the one applied here: a
+    target whose centres all lie in the outer half-pixel band of the border pixels is counted, not flagged."""
     cols, rows = decode_frac(out["frac"])
     H, W = case["src"]["shape"]
     on = needed(case, cols, rows)
     n_on = int(on.sum())
     case["_n_on"] = n_on
-    geos = case["src"]["kind"] == "geos"
-    tclass = ("geos_" if geos else "") + ("one_pixel_thick_target" if thin_target(case) else "general")
+    with np.errstate(all="ignore"):
+        hull = on & (cols >= 0) & (cols <= W - 1) & (rows >= 0) & (rows <= H - 1)
+    n_hull = int(hull.sum())
+    case["_n_hull"] = n_hull
     if "err" in res:
         e = res["err"]
         nonoverlap = e in NONOVERLAP or (api == "gas" and e == "NotImplementedError")
         if n_on == 0:
             return None
-        with np.errstate(all="ignore"):
-            hull = on & (cols >= 0) & (cols <= W - 1) & (rows >= 0) & (rows <= H - 1)
         if nonoverlap:
-            if not hull.any():
-                cls = "target_outside_hull_of_source_centres"
-            elif thin_target(case):
-                cls = "one_pixel_thick_target"
-            else:
-                cls = tclass
-            return ("C11.nonoverlap.%s%s" % ("" if api == "slicer" else api + ".", cls),
-                    "%s reports %s(%s) although %d of %d target pixel centres fall on the source grid" % (
-                        api, e, res.get("msg", ""), n_on, cols.size))
-        return ("C11.crash.%s%s" % ("" if api == "slicer" else api + ".", tclass),
+            if n_hull == 0:
+                case["_outer_band_only"] = True
+                return None
+            return ("C11.nonoverlap.%s.%s" % (api, input_class(case, cols)),
+                    "%s reports %s(%s) although %d of %d target pixel centres fall on the source grid (%d inside the hull of "
+                    "the source pixel centres)" % (api, e, res.get("msg", ""), n_on, cols.size, n_hull))
+        return ("C11.crash.%s.%s" % (api, input_class(case, cols)),
                 "%s raises %s(%s) although %d of %d target pixel centres fall on the source grid" % (
                     api, e, res.get("msg", ""), n_on, cols.size))
     xs, xe, ys, ye = res["sl"]
@@ -361,17 +373,17 @@ def judge_cover(case, out, res, api):
     bad = ~(okc & okr)
     if bad.any():
         i = int(np.flatnonzero(bad)[0])
-        # margin of the miss in source pixels
-        return ("C11.cover.%s%s" % ("" if api == "slicer" else api + ".", tclass),
+        return ("C11.cover.%s.%s" % (api, input_class(case, cols)),
                 "%s returns x[%d:%d] y[%d:%d] but %d of %d on-grid target pixel centres have their containing source pixel "
                 "outside, e.g. fractional (col,row)=(%.4f,%.4f)" % (api, xs, xe, ys, ye, int(bad.sum()), n_on,
                                                                      float(cols[on][i]), float(rows[on][i])))
-    # statistic only: bilinear neighbours floor / floor+1 (clipped) also inside
-    fl = np.clip(np.floor(cols[on]), 0, W - 1)
-    fl1 = np.clip(np.floor(cols[on]) + 1, 0, W - 1)
-    rl = np.clip(np.floor(rows[on]), 0, H - 1)
-    rl1 = np.clip(np.floor(rows[on]) + 1, 0, H - 1)
-    case["_bil_ok"] = bool(((fl >= xs) & (fl1 < xe) & (rl >= ys) & (rl1 < ye)).all())
+    if api == "slicer":
+        # statistic only: bilinear neighbours floor / floor+1 (clipped) also inside
+        fl = np.clip(np.floor(cols[on]), 0, W - 1)
+        fl1 = np.clip(np.floor(cols[on]) + 1, 0, W - 1)
+        rl = np.clip(np.floor(rows[on]), 0, H - 1)
+        rl1 = np.clip(np.floor(rows[on]) + 1, 0, H - 1)
+        case["_bil_ok"] = bool(((fl >= xs) & (fl1 < xe) & (rl >= ys) & (rl1 < ye)).all())
     return None
 
 
@@ -411,3 +423,356 @@ def judge_same_crs_tight(case, res):
         out.append((tie_lo, tie_hi))
     case["_ties"] = out
     return None
+
+
+# ------------------------------------------------------------------ classification of the input (attribution keys)
+def _world_half_width(src):
+    if src["kind"] == "longlat":
+        return 180.0
+    return math.pi * 6378137.0
+
+
+def wraps_source_crs(case, cols):
+    """target pixel centres spread over more than half the world width of a cylindrical / longlat source CRS:
+    the target straddles the source CRS's antimeridian (its outline is torn in that CRS)"""
+    src = case["src"]
+    if src["kind"] not in ("longlat", "merc", "eqc"):
+        return False
+    fin = cols[np.isfinite(cols)]
+    if fin.size == 0:
+        return False
+    x0, _, x1, _ = src["extent"]
+    dx = abs(x1 - x0) / src["shape"][0 + 1]
+    return float(fin.max() - fin.min()) * dx > _world_half_width(src)
+
+
+_outline_cache = {}
+
+
+def geos_outline_lossy(case):
+    """geos source: (a) some vertex of the disk outline has no finite image in the target CRS, or (b) the source is a
+    partial disk (its straight sector edges are carried into the target CRS by their end points only)"""
+    src, tgt = case["src"], case["tgt"]
+    if src["kind"] != "geos":
+        return None
+    key = (src["proj"], tgt["proj"])
+    if key not in _outline_cache:
+        from pyproj import Transformer
+        req = GEOS_A / 1000.0
+        rp = GEOS_B / 1000.0
+        h = GEOS_H / 1000.0 + req
+        ax = (math.acos(math.sqrt(1 - req ** 2 / h ** 2)) - 0.0001) * GEOS_H
+        ay = (math.acos(math.sqrt(1 - rp ** 2 / h ** 2)) - 0.0001) * GEOS_H
+        ang = np.linspace(-np.pi, np.pi, 360, endpoint=False)
+        t = Transformer.from_crs(src["proj"], tgt["proj"], always_xy=True)
+        with np.errstate(all="ignore"):
+            x, y = t.transform(np.cos(ang) * ax, -np.sin(ang) * ay)
+        _outline_cache[key] = bool(np.isfinite(x).all() and np.isfinite(y).all())
+        torn = False
+        if tgt["kind"] in ("longlat", "merc", "eqc") and np.isfinite(x).any():
+            fx = x[np.isfinite(x)]
+            torn = float(fx.max() - fx.min()) > (180.0 if tgt["kind"] == "longlat" else math.pi * 6378137.0)
+        _outline_cache[key] = (_outline_cache[key], torn)
+    finite, torn = _outline_cache[key]
+    full = 5568748.0
+    x0, y0, x1, y1 = src["extent"]
+    partial = not (min(x0, x1) <= -full + 1 and max(x0, x1) >= full - 1 and min(y0, y1) <= -full + 1 and max(y0, y1) >= full - 1)
+    if not finite:
+        return "geos_outline_without_image_in_target_crs"
+    if torn:
+        return "geos_outline_torn_by_target_antimeridian"
+    if partial:
+        return "geos_partial_disk_sector_edges"
+    return None
+
+
+# ------------------------------------------------------------------ scalar stream for the kernels
+def gen_scalar(ctx):
+    r = ctx.rng
+    out = []
+    vals = [-3.0, -1.0, -0.5, -0.25, 0.0, 0.25, 0.5, 1.0, 1.5, 2.0, 7.49, 7.5, 8.0, 39.999999, 40.0, 1e9]
+    for _ in range(ctx.n(150, 1500)):
+        def one():
+            if r.random() < 0.5:
+                return r.choice(vals)
+            return r.uniform(-6, 60)
+        xb = [one(), one()]
+        yb = [one(), one()]
+        if r.random() < 0.06:
+            (xb if r.random() < 0.5 else yb)[r.randint(0, 1)] = r.choice([float("inf"), float("-inf")])
+        out.append({"api": "scalar", "kernel": "create_slices", "xb": xb, "yb": yb})
+    # _sanitize_polygon_bounds + _create_slices_from_bounds on explicit bounds around / outside a dyadic area
+    for _ in range(ctx.n(120, 1200)):
+        px = r.choice([0.5, 1.0, 256.0])
+        W, H = r.randint(1, 12), r.randint(1, 12)
+        x0, y0 = r.randint(-8, 8) * px, r.randint(-8, 8) * px
+        ext = [x0, y0, x0 + W * px, y0 + H * px]
+        if r.random() < 0.15:
+            ext = [ext[0], ext[3], ext[2], ext[1]]
+        if r.random() < 0.1:
+            ext = [ext[2], ext[1], ext[0], ext[3]]
+        def coord(lo, n):
+            t = r.random()
+            if t < 0.5:
+                return lo + r.randint(-6, 2 * n + 6) * px / 2        # pixel borders and centres exactly
+            if t < 0.55:
+                return r.choice([float("inf"), float("-inf")])
+            return lo + r.uniform(-3, n + 3) * px
+        bx = sorted([coord(x0, W), coord(x0, W)])
+        by = sorted([coord(y0, H), coord(y0, H)])
+        out.append({"api": "scalar", "kernel": "sanitize", "src": {"proj": "+proj=laea +lat_0=50 +lon_0=10 +ellps=WGS84", "shape": [H, W], "extent": ext},
+                    "bounds": [bx[0], by[0], bx[1], by[1]]})
+    for _ in range(ctx.n(80, 600)):
+        a = r.choice(vals + [r.uniform(-10, 100)])
+        b = r.choice(vals + [r.uniform(-10, 100)])
+        out.append({"api": "scalar", "kernel": "ensure_int", "start": a, "stop": b})
+    for a in range(-3, 6):
+        for b in range(-3, 6):
+            out.append({"api": "scalar", "kernel": "orientation", "start": a, "stop": b})
+    return out
+
+
+# ------------------------------------------------------------------ Coq literals
+def farea(a):
+    x0, y0, x1, y1 = a["extent"]
+    return "(%s, %s, %s, %s, %d, %d)" % (fhex(x0), fhex(y0), fhex(x1), fhex(y1), a["shape"][1], a["shape"][0])
+
+
+def zl(l):
+    return "[" + "; ".join("(%d)" % v for v in l) + "]"
+
+
+def bl(l):
+    return "[" + "; ".join("true" if v else "false" for v in l) + "]"
+
+
+STAGE = {"Area outside of domain.": 1, "Areas not overlapping.": 2, "No slice on area.": 3, "Area not within finite bounds.": 4}
+HDR = ("From Coq Require Import ZArith List Bool PrimFloat.\n"
+       "From PR Require Import Base.Num Base.F64 Base.ListX Base.Slice Model.Grid Model.Crop Model.C11_run.\n"
+       "Import ListNotations.\nOpen Scope Z_scope.\n")
+
+
+def finite(*v):
+    return all(math.isfinite(x) for x in v)
+
+
+def public_case(c):
+    return {k: v for k, v in c.items() if not k.startswith("_")}
+
+
+def run_impl(ctx, cases):
+    """run the driver on the cases, in parallel batches"""
+    from concurrent.futures import ThreadPoolExecutor
+    nb = 12
+    batches = [cases[i::nb] for i in range(nb)]
+    with ThreadPoolExecutor(max_workers=nb) as ex:
+        futs = [ex.submit(ctx.impl, "c11", {"cases": [public_case(c) for c in b]}) for b in batches if b]
+        res = [f.result()["results"] for f in futs]
+    out = [None] * len(cases)
+    k = 0
+    for i, b in enumerate([b for b in batches if b]):
+        idx = list(range(len(cases)))[[j for j, bb in enumerate(batches) if bb][i]::nb]
+        for j, o in zip(idx, res[k]):
+            out[j] = o
+        k += 1
+    return out
+
+
+def judge(case, o):
+    """all oracle verdicts for one observed case: list of (key, what)"""
+    api = case["api"]
+    v = []
+    if "setup_err" in o:
+        return v
+    res = o["res"]
+    j = judge_cover(case, o, res, api)
+    if j:
+        v.append(j)
+    if api == "gas" and o["inst"].get("same_crs") and not j:
+        t = judge_same_crs_tight(case, res)
+        if t:
+            v.append(t)
+    if api == "slicer":
+        if o.get("res_plain") != res:
+            v.append(("C11.slicer.instrumented_path_differs", "get_slices() gives %s but get_slices_from_polygon(get_polygon_to_contain()) gives %s"
+                      % (o.get("res_plain"), res)))
+        if "crop" in o:
+            cr = o["crop"]
+            if ("sl" in cr) != ("sl" in res) or ("sl" in cr and cr["sl"] != res["sl"]) or ("err" in cr and cr["err"] != res.get("err")):
+                v.append(("C11.crop_source_area.differs", "crop_source_area gives %s, the slicer %s" % (cr, res)))
+            elif "sl" in cr:
+                xs, xe, ys, ye = cr["sl"]
+                H, W = case["src"]["shape"]
+                want = [max(0, min(ye, H) - min(ys, H)), max(0, min(xe, W) - min(xs, W))]
+                if cr["shape"] != want:
+                    v.append(("C11.crop_source_area.shape", "cropped area has shape %s, the slices select %s" % (cr["shape"], want)))
+    return v
+
+
+def run(ctx):
+    ctx.rule = ("seeded pairs of areas: CRS pool (laea, stere N/S, longlat, merc, eqc, ortho, lcc, geos full/partial disk) x scenes x "
+                "relation (inside, partial, corner, contains, disjoint) x target thickness ((1,n),(n,1),(1,1) in ~22%), polar "
+                "high-curvature pairs, dyadic same-CRS pairs with exact ties, flipped extents, chunked dask swath sources; scalar "
+                "streams for the kernels. A pair is non-trivial when at least one target pixel centre falls on the source grid "
+                "(so that the cover / non-overlap clauses say something); a scalar case when a clipping, tie, infinite or "
+                "reversed branch is taken; distinct = distinct inputs")
+    cases = gen_pairs(ctx)
+    scal = gen_scalar(ctx)
+    obs = run_impl(ctx, cases + scal)
+    obs_pairs, obs_scal = obs[:len(cases)], obs[len(cases):]
+
+    # ---- property oracle on the implementation
+    L_crop, L_arr, L_create, L_starts, L_gas, L_swath, L_ens, L_ori = [], [], [], [], [], [], [], []
+    for c, o in zip(cases, obs_pairs):
+        api = c["api"]
+        if "setup_err" in o:
+            ctx.count("setup_error")
+            continue
+        res = o["res"]
+        verdicts = judge(c, o)
+        n_on = c.get("_n_on", 0)
+        outcome = ("slices" if "sl" in res else res["err"])
+        ctx.count("%s:%s:%s" % (api, c["cls"].replace("thin_", "thin/"), "on_grid" if n_on else "off_grid"))
+        ctx.count("outcome:%s:%s" % (api, outcome))
+        if c.get("_outer_band_only"):
+            ctx.count("nonoverlap_with_centres_only_in_outer_half_pixel_band")
+        if "_bil_ok" in c:
+            ctx.count("bilinear_neighbours_inside" if c["_bil_ok"] else "bilinear_neighbours_not_all_inside")
+        ctx.case((api, repr(c["src"]), repr(c["tgt"]), repr(c.get("chunks"))), nontrivial=n_on > 0,
+                 sample={api: {"src": c["src"], "tgt": c["tgt"], "chunks": c.get("chunks")}, "impl": res,
+                         "on_grid_target_pixels": n_on})
+        for key, what in verdicts:
+            ctx.add_failure(key, what, {"case": public_case(c), "impl": res})
+        # ---- correspondence material
+        inst = o.get("inst", {})
+        if api == "slicer" and "poly_err" not in inst and ("sl" in res or res["err"] == "IncompatibleAreas"):
+            valid = inst["valid"]
+            inter = "bounds_in" in inst
+            b = inst.get("bounds_in", [0.0, 0.0, 0.0, 0.0])
+            if "sl" in res:
+                exp = [0] + res["sl"]
+            else:
+                st = STAGE.get(res.get("msg"))
+                exp = [st, 0, 0, 0, 0] if st else None
+            if exp and all(x == x for x in b):
+                L_crop.append("(%s, %s, %s, (%s, %s, %s, %s), %s)" % ("true" if valid else "false", "true" if inter else "false",
+                                                                      farea(c["src"]), fhex(b[0]), fhex(b[1]), fhex(b[2]), fhex(b[3]), zl(exp)))
+                ctx.count("corr:crop_stage_%d" % exp[0])
+            if "xb" in inst and all(x == x for x in b):
+                L_arr.append("(%s, (%s, %s, %s, %s), (%s, %s), (%s, %s))" % (
+                    farea(c["src"]), fhex(b[0]), fhex(b[1]), fhex(b[2]), fhex(b[3]),
+                    fhex(inst["xb"][0]), fhex(inst["xb"][1]), fhex(inst["yb"][0]), fhex(inst["yb"][1])))
+                if "created" in inst and all(x == x for x in inst["xb"] + inst["yb"]):
+                    L_create.append("((%s, %s), (%s, %s), %s)" % (fhex(inst["xb"][0]), fhex(inst["xb"][1]), fhex(inst["yb"][0]),
+                                                                  fhex(inst["yb"][1]), zl([0] + inst["created"])))
+        if api == "gas" and inst.get("same_crs") and "starts_stops" in inst:
+            L_starts.append("(%s, %s, %s)" % (farea(c["src"]), farea(c["tgt"]), zl(inst["starts_stops"])))
+            if "sl" in res:
+                sx, sy = [0 if s is None else s for s in res["steps"]]
+                xs, xe, ys, ye = res["sl"]
+                L_gas.append("(%s, %s, %s)" % (farea(c["src"]), farea(c["tgt"]), zl([xs, xe, sx, ys, ye, sy])))
+        if api == "swath" and "chunks" in inst and ("sl" in res or res["err"] == "IncompatibleAreas"):
+            boxes = [[b[0][0], b[0][1], b[1][0], b[1][1]] for b in inst["chunks"]]
+            hit = [b[2] for b in inst["chunks"]]
+            exp = [1] + res["sl"] if "sl" in res else [0, 0, 0, 0, 0]
+            L_swath.append("(%s, %s, %s, %s)" % ("[" + "; ".join(zl(ch) for ch in inst["src_chunks"]) + "]", bl(hit),
+                                                 "[" + "; ".join(zl(b) for b in boxes) + "]", zl(exp)))
+            ctx.count("corr:swath_%s" % ("hit" if any(hit) else "nohit"))
+
+    for c, o in zip(scal, obs_scal):
+        k = c["kernel"]
+        res = o["res"]
+        if k == "create_slices":
+            xb, yb = c["xb"], c["yb"]
+            inf = not finite(*(xb + yb))
+            ctx.case(("cs", repr(xb), repr(yb)), nontrivial=inf or min(xb) < 0 or min(yb) < 0)
+            ctx.count("scalar:create_slices")
+            if "sl" in res:
+                exp = [0] + res["sl"]
+            elif res.get("err") == "IncompatibleAreas":
+                exp = [4, 0, 0, 0, 0]
+            else:
+                ctx.add_failure("C11.crash.create_slices", "_create_slices_from_bounds(%s, %s) raises %s" % (xb, yb, res), {"case": c, "impl": res})
+                continue
+            L_create.append("((%s, %s), (%s, %s), %s)" % (fhex(xb[0]), fhex(xb[1]), fhex(yb[0]), fhex(yb[1]), zl(exp)))
+        elif k == "sanitize":
+            b = c["bounds"]
+            if "sl" in res:
+                exp = [0] + res["sl"]
+            elif res.get("err") == "IncompatibleAreas" and res.get("msg") in STAGE:
+                exp = [STAGE[res["msg"]], 0, 0, 0, 0]
+            else:
+                ctx.add_failure("C11.crash.sanitize", "_sanitize_polygon_bounds/_create_slices_from_bounds(%s) on %s raises %s" % (b, c["src"], res),
+                                {"case": c, "impl": res})
+                continue
+            ctx.case(("sa", repr(c["src"]), repr(b)), nontrivial=exp[0] != 0 or exp[1] == 0 or exp[3] == 0)
+            ctx.count("scalar:sanitize_stage_%d" % exp[0])
+            L_crop.append("(true, true, %s, (%s, %s, %s, %s), %s)" % (farea(c["src"]), fhex(b[0]), fhex(b[1]), fhex(b[2]), fhex(b[3]), zl(exp)))
+            # independent statement of the 'all outside' rule and of the slices (exact rationals on the dyadic grid)
+            if finite(*b):
+                c0, r0 = frac_index(c["src"], b[0], b[1])
+                c1, r1 = frac_index(c["src"], b[2], b[3])
+                H, W = c["src"]["shape"]
+                outside = (max(c0, c1) < 0) or (max(r0, r1) < 0) or (min(c0, c1) >= W) or (min(r0, r1) >= H)
+                want = None if outside else [max(math.floor(max(min(c0, c1), 0)) - 1, 0), math.ceil(max(c0, c1)) + 1,
+                                             max(math.floor(max(min(r0, r1), 0)) - 1, 0), math.ceil(max(r0, r1)) + 1]
+                got = res.get("sl")
+                if got != want:
+                    ctx.add_failure("C11.bounds_to_slices", "bounds %s on %s give %s, required %s" % (b, c["src"], res, want),
+                                    {"case": c, "impl": res})
+        elif k == "ensure_int":
+            ctx.case(("ei", c["start"], c["stop"]), nontrivial=c["start"] != int(c["start"]) or c["stop"] != int(c["stop"]))
+            ctx.count("scalar:ensure_integer_slice")
+            if "v" not in res or res["types"][:2] != ["int", "int"] or res["v"][0] > c["start"] or res["v"][1] < c["stop"] \
+                    or res["v"][0] <= c["start"] - 1 or res["v"][1] >= c["stop"] + 1:
+                ctx.add_failure("C11.ensure_integer_slice", "_ensure_integer_slice(slice(%r, %r)) -> %s is not the enclosing integer slice"
+                                % (c["start"], c["stop"], res), {"case": c, "impl": res})
+                continue
+            L_ens.append("(%s, %s, (%d, %d))" % (fhex(c["start"]), fhex(c["stop"]), res["v"][0], res["v"][1]))
+        elif k == "orientation":
+            ctx.case(("or", c["start"], c["stop"]), nontrivial=c["start"] > c["stop"])
+            ctx.count("scalar:check_slice_orientation")
+            if "v" not in res or res["v"][:2] != [c["start"], c["stop"]]:
+                ctx.add_failure("C11.check_slice_orientation", "check_slice_orientation(slice(%d, %d)) -> %s changes the bounds"
+                                % (c["start"], c["stop"], res), {"case": c, "impl": res})
+                continue
+            L_ori.append("(%d, %d, %d)" % (c["start"], c["stop"], res["v"][2] or 0))
+
+    # ---- correspondence: model (binary64 / Z) vs implementation, exact
+    groups = [("crop", "chk_crop", L_crop), ("arr", "chk_arr", L_arr), ("create", "chk_create", L_create),
+              ("starts", "chk_starts", L_starts), ("gas", "chk_gas", L_gas), ("swath", "chk_swath", L_swath),
+              ("ensure", "chk_ensure", L_ens), ("orient", "chk_orient", L_ori)]
+    texts = []
+    for name, chk, L in groups:
+        for sh in range(0, max(len(L), 1), 400):
+            part = L[sh:sh + 400]
+            if not part:
+                continue
+            texts.append(("c11_%s_%d" % (name, sh // 400),
+                          HDR + "Definition cases := [%s].\nEval vm_compute in (bad %s cases).\n" % (";\n".join(part), chk), part, name))
+    res = ctx.coq_eval_many([(n, t) for n, t, _, _ in texts])
+    for name, _, lines, what in texts:
+        out, ok = res[name]
+        ctx.count("corr_cases:" + what, len(lines))
+        if not ok:
+            ctx.broken.append(("correspondence:" + what, "model evaluation failed: " + out[-300:]))
+            continue
+        bad = ints(out)
+        if bad:
+            ctx.broken.append(("correspondence:" + what, "model and implementation differ on %d of %d cases, e.g. %s"
+                               % (len(bad), len(lines), lines[bad[0]][:300])))
+    ctx.traces = len(L_crop) + len(L_swath)
+    ctx.notes.append("non-overlap clause judged with the library's convention 'on the source grid' = inside the hull of the source pixel "
+                     "centres; targets whose centres all lie in the outer half-pixel band of the border pixels are counted "
+                     "(input_distribution: nonoverlap_with_centres_only_in_outer_half_pixel_band), see C11_nonoverlap_outer_half_pixel_refuted")
+    ctx.notes.append("same-CRS tightness is required of AreaDefinition.get_area_slices only; the AreaSlicer buffers by one target pixel "
+                     "and expands by one source pixel by design")
+
+
+def replay(ctx, data):
+    case = data["case"]["case"]
+    o = ctx.impl("c11", {"cases": [public_case(case)]})["results"][0]
+    if case["api"] == "scalar":
+        return o["res"] == data["case"]["impl"] and "err" in o["res"]
+    c = dict(case)
+    return bool(judge(c, o))
